@@ -35,6 +35,7 @@ type interpreter struct {
 	eng                *Engine
 	prog               *ssa.Program
 	globals            map[*ssa.Global]*value // addresses of global variables, per path
+	inInit             int                    // depth of lazily run package initialisers
 	inited             map[*ssa.Package]bool  // packages whose initialiser has been started on this path
 	runtimeErrorString types.Type
 	sizes              types.Sizes
@@ -121,10 +122,15 @@ func (i *interpreter) globalAddr(g *ssa.Global) *value {
 		}
 		if init := pkg.Func("init"); init != nil {
 			i.path.inits = append(i.path.inits, pkg.Pkg.Path())
+			i.inInit++
 			call(i, nil, token.NoPos, init, nil)
+			i.inInit--
 		}
 	} else if i.eng.stubbedPkg(pkg.Pkg.Path()) {
 		i.abort("global %s of stubbed package %s read (no override)", g.Name(), pkg.Pkg.Path())
+	}
+	if i.racyGlobal(g) {
+		i.path.sched.registerRacy(addr)
 	}
 	return addr
 }
@@ -235,7 +241,14 @@ func visitInstr(fr *frame, instr ssa.Instruction) continuation {
 		}
 		i.checkFrozen(addr)
 		i.yieldShared(addr)
+		racy := i.racyCell(addr)
+		if racy {
+			i.yield()
+		}
 		store(mustDeref(instr.Addr.Type()), addr, fr.get(instr.Val))
+		if racy {
+			i.yield()
+		}
 
 	case *ssa.If:
 		succ := 1
